@@ -5,19 +5,31 @@ From LH Require Import Base.Bytes Base.Res Model.AnnLexer Model.AnnAst Model.Ann
   Spec.AnnGrammar Proofs.AnnRoundtrip Proofs.AnnStat Proofs.AnnPlain Proofs.AnnPrinter.
 Import ListNotations.
 
+Lemma one_line_fragment_gen cont lno text s :
+  ann_parse_line (fuel_of text) text = Ok (inl s) -> s <> SNotValid -> empty_alias s = false ->
+  parse_fragment_gen cont [(lno, s_head ++ text)] = Ok (mkFrag [s] [lno] []).
+Proof.
+  intros Hp Hnv Hna. destruct cont; unfold parse_fragment_gen, frag_loop_fx, frag_step_fx, frag_loop, frag_step.
+  - change (check_head s_alias_head (s_head ++ text)) with (@Ok (option bytes) None). cbn [rbind].
+    change (check_head s_head (s_head ++ text)) with (Ok (Some text)). cbn [rbind].
+    rewrite Hp. cbn [rbind].
+    destruct s; try contradiction; cbn [rbind fst f_stats f_lines f_errs app];
+      unfold clear_empty_alias; cbn [f_stats f_lines f_errs clear_loop empty_alias rbind tl firstn fst snd app];
+      try reflexivity.
+    cbn [empty_alias] in Hna. rewrite Hna. reflexivity.
+  - change (check_head s_alias_head (s_head ++ text)) with (@Ok (option bytes) None). cbn [rbind].
+    change (check_head s_head (s_head ++ text)) with (Ok (Some text)). cbn [rbind].
+    rewrite Hp. cbn [rbind].
+    destruct s; try contradiction; cbn [rbind f_stats f_lines f_errs app];
+      unfold clear_empty_alias; cbn [f_stats f_lines f_errs clear_loop empty_alias rbind tl firstn fst snd app];
+      try reflexivity.
+    cbn [empty_alias] in Hna. rewrite Hna. reflexivity.
+Qed.
+
 Lemma one_line_fragment lno text s :
   ann_parse_line (fuel_of text) text = Ok (inl s) -> s <> SNotValid -> empty_alias s = false ->
   parse_fragment [(lno, s_head ++ text)] = Ok (mkFrag [s] [lno] []).
-Proof.
-  intros Hp Hnv Hna. unfold parse_fragment, frag_loop, frag_step.
-  change (check_head s_alias_head (s_head ++ text)) with (@Ok (option bytes) None). cbn [rbind].
-  change (check_head s_head (s_head ++ text)) with (Ok (Some text)). cbn [rbind].
-  rewrite Hp. cbn [rbind].
-  destruct s; try contradiction; cbn [rbind f_stats f_lines f_errs app];
-    unfold clear_empty_alias; cbn [f_stats f_lines f_errs clear_loop empty_alias rbind tl firstn fst snd app];
-    try reflexivity.
-  cbn [empty_alias] in Hna. rewrite Hna. reflexivity.
-Qed.
+Proof. exact (one_line_fragment_gen (fx_cont deployed) lno text s). Qed.
 
 Lemma embed_stat_valid nested s : embed_stat nested s <> SNotValid /\ empty_alias (embed_stat nested s) = false.
 Proof. destruct s; cbn; split; (discriminate || reflexivity). Qed.
@@ -37,16 +49,22 @@ Proof.
   apply one_line_fragment; [apply stat_roundtrip_plain; assumption | exact H1 | exact H2].
 Qed.
 
-(* the printer leg: "-@type " ++ TypeConvertStr a is read as the type a denotes *)
-Theorem printer_fragment : forall a lno, printer_guard a = true ->
-  parse_fragment [(lno, s_head ++ k_type ++ type_convert_str a)]
+(* the printer leg: "-@type " ++ TypeConvertStr a is read as the type a denotes (any set of repairs, under its guard) *)
+Theorem printer_fragment_fx : forall fx a lno, pguard fx (abs a) = true ->
+  parse_fragment [(lno, s_head ++ k_type ++ type_convert_str_fx fx a)]
   = Ok (mkFrag [SType [(false, false, embed_type (abs a))] []] [lno] []).
 Proof.
-  intros a lno Hg. pose proof (tcs_show (asize a) a (le_n _) Hg) as Ht.
-  unfold printer_guard in Hg. apply printer_ok_inv in Hg as (Hd & _).
+  intros fx a lno Hg. apply pguard_G in Hg. pose proof (tcs_show fx (asize a) a (le_n _) Hg) as Ht.
+  pose proof (G_doc fx _ Hg) as Hd.
   pose proof (stat_fragment_roundtrip (DSType [(false, false, abs a)] None) lno) as H.
   unfold show_line, embed_line in H.
   cbn [show_stat show_tlist show_comment embed_stat embed_tlist comment_of fst snd app] in H.
   rewrite !app_nil_r in H. rewrite Ht. apply H.
   cbn [doc_stat is_nil negb forallb snd andb]. rewrite Hd. reflexivity.
 Qed.
+
+(* the code as it is *)
+Theorem printer_fragment : forall a lno, doc_type (abs a) = true -> has_fun (abs a) = false ->
+  parse_fragment [(lno, s_head ++ k_type ++ type_convert_str a)]
+  = Ok (mkFrag [SType [(false, false, embed_type (abs a))] []] [lno] []).
+Proof. intros a lno Hd Hf. apply (printer_fragment_fx deployed). apply pguard_deployed; assumption. Qed.
